@@ -39,6 +39,7 @@ def run(tier, replay):
 
     # 2. vectors from TLC replayed on the real matcher
     total_eval = 0
+    last_vec = None
     for cfg, max_t, syms in (("Gen_Glob_thorough.cfg" if thorough else "Gen_Glob_quick.cfg", 8 if thorough else 7, "ab"),
                              ("Gen_Glob_star.cfg", 6, "a*")):
         g = run_tlc("MC_Glob.tla", cfg, D, workers=1, timeout=1500, work_id="c05", heap="6g")
@@ -56,6 +57,8 @@ def run(tier, replay):
         if s["patterns"] != len(g.prints):
             raise vlib.ToolError("harness consumed %d of %d patterns" % (s["patterns"], len(g.prints)))
         total_eval += s["evaluations"]
+        if last_vec is None and not s["mismatches"]:
+            last_vec = (cfg, max_t, syms, g.prints)
         ctx.cov["evaluations"] += s["evaluations"]
         ctx.cov["distinct_nontrivial"] += s["nontrivial"]
         ctx.cov["traces_validated_against_impl"] += s["patterns"] * s["texts"]
@@ -104,6 +107,33 @@ def run(tier, replay):
     if t.violation:
         rej = t.prints[-1]["rejected"] if t.prints else []
         ctx.violation("random pairs rejected by Trace_Glob; first: %s" % json.dumps(rej[:2]), {"kind": "glob-trace", "rejected": rej})
+    # 4. binding self-test (only on cleanly validated material): a vector with one matching text withdrawn must be
+    #    flagged by the harness, and a log record with the answer flipped must be rejected by Trace_Glob
+    if not ctx.violations and last_vec is not None:
+        cfg0, max_t0, syms0, prints0 = last_vec
+        bad = [dict(x) for x in prints0]
+        k = next((i for i, x in enumerate(bad) if "*" in x["p"] and len(x["m"]) > 1), None)
+        if k is not None:
+            bad[k] = {"p": bad[k]["p"], "m": bad[k]["m"][1:]}
+            q = run_bin(glob, ["replay", str(max_t0), syms0], stdin_data="\n".join(json.dumps(x) for x in bad) + "\n")
+            rs = [x for x in parse_jsonl(q.stdout) if x.get("summary")]
+            flagged = bool(rs and rs[0]["mismatches"] >= 1)
+            if not flagged:
+                raise vlib.ToolError("binding self-test: a corrupted vector (matching text withdrawn) was not flagged by the harness")
+        lines = [x for x in open(tr).read().split("\n") if x.strip()]
+        j = next((i for i, x in enumerate(lines) if isinstance(json.loads(x)["got"], bool)), None)
+        rejected = None
+        if j is not None:
+            r0 = json.loads(lines[j]); r0["got"] = not r0["got"]; lines[j] = json.dumps(r0)
+            tr2 = os.path.join(vlib.workdir("C05"), "random_corrupt.ndjson")
+            with open(tr2, "w") as f:
+                f.write("\n".join(lines[: j + 50]) + "\n")
+            t2 = run_tlc("Trace_Glob.tla", "Trace_Glob.cfg", D, workers=1, env={"TRACE": tr2}, timeout=900, work_id="c05", deque=True, allow_violation=True)
+            rejected = bool(t2.violation)
+            os.remove(tr2)
+            if not rejected:
+                raise vlib.ToolError("binding self-test: a log record with the answer flipped was accepted by Trace_Glob")
+        ctx.add_part("binding self-test", corrupted_vector_flagged=(k is not None), corrupted_record_rejected=rejected)
     os.remove(tr)
     ctx.cov["rule"] = ("all (pattern,text) pairs within the bound, each under 4 symbol mappings x 2 entry points; "
                        "non-trivial = distinct pairs whose pattern has a `*` and which match a non-empty text")
